@@ -171,7 +171,30 @@ class Server(Suite):
         n = {"quick": 3000, "search": 50000}.get(budget, 500000)
         for _ in range(n):  # dddd-dd-dd strings that need not be calendar dates
             out.append({"req": {"k": "str", "s": "%04d-%02d-%02d" % (rng.randrange(10000), rng.randrange(100), rng.randrange(100))}})
-        return V.assign_debug(out, self.static_kind, ctx=ctx, name=self.name)
+        out = V.assign_debug(out, self.static_kind, ctx=ctx, name=self.name)
+        return out + self.other_backend(out, budget, ctx)
+
+    def other_backend(self, cases, budget, ctx):
+        """The same requests against the library started WITHOUT Pydantic (MCP_FORCE_FALLBACK=1, its own switch) in a worker process:
+        every non-date single request, a dense sample of the dates, a third of the sequences."""
+        from ..core import sha
+        import re as _re
+
+        datelike = _re.compile(r"^\d{4}-\d{2}-\d{2}$")
+        sup = set(V.server_supported())
+        out = []
+        for c in cases:
+            h = int(sha(c), 16)
+            if "steps" in c:
+                if len(c["steps"]) <= 5 and h % (3 if budget == "quick" else 1) == 0:
+                    out.append(dict(c, backend="fallback"))
+            else:
+                r = c["req"]
+                plain_date = r["k"] == "str" and datelike.match(r["s"]) and r["s"] not in sup and len(r) == 2 and not c.get("hv")
+                if not plain_date or h % (40 if budget == "quick" else 8) == 0:
+                    out.append(dict(c, backend="fallback"))
+        ctx.notes.append(f"{self.name}: {len(out)} of the cases also run in a worker process with MCP_FORCE_FALLBACK=1 (the library without Pydantic)")
+        return out
 
     @staticmethod
     def static_kind(case):
@@ -179,6 +202,8 @@ class Server(Suite):
         if "steps" in case:
             return ("seq", len(case["steps"]) if len(case["steps"]) <= 4 else "long", tuple(dict.fromkeys(str(s_.get("carry")) for s_ in case["steps"])),
                     case.get("read"), bool(case.get("concurrent")), case.get("handlers"), case.get("hv"), bool(case.get("store_raises")),
+                    bool(case.get("dump_raises")), tuple(sorted({str(s_.get("nested")) for s_ in case["steps"]})), any(s_.get("mutate") for s_ in case["steps"]),
+                    case.get("backend"),
                     tuple(sorted({b for s_ in case["steps"] for b in (s_.get("between") or [])})))
         r = case["req"]
         return ("one", r["k"], r.get("shape"), r.get("id"), r.get("ci"), r.get("layout"), case.get("hv"),
@@ -228,6 +253,31 @@ class Server(Suite):
                     out.append({"hv": hv, "steps": [{"req": a, "carry": None}, {"req": b, "carry": "prev"}, {"req": a, "carry": None}], "read": "late"})
                 out.append({"hv": "registry", "steps": [{"req": a, "carry": None}, {"req": b, "carry": "prev", "between": ["raising-method", "tools-list"]},
                                                         {"req": a, "carry": None, "between": ["raising-method"]}]})
+        # H. the environment between two handshakes: the global random generator re-seeded with the same seed (a tool that wants
+        #    reproducible output), the wall clock jumping forwards by hours / years or backwards
+        for a in reqs:
+            for b in reqs:
+                for env in (["reseed:5"], ["reseed:0"], ["clock:86400"], ["clock:-86400"], ["clock:1000000000"], ["reseed:5", "clock:-3600"]):
+                    out.append({"steps": [{"req": a, "carry": None, "between": env}, {"req": b, "carry": None, "between": env}]})
+                out.append({"steps": [{"req": a, "carry": None, "between": ["reseed:9"]}, {"req": b, "carry": None},
+                                      {"req": a, "carry": None, "between": ["reseed:9"]}, {"req": b, "carry": None}], "read": "late"})
+                out.append({"handlers": 2, "steps": [{"req": a, "h": 0, "between": ["reseed:3"]}, {"req": b, "h": 1, "between": ["reseed:3"]},
+                                                     {"req": b, "h": 0, "between": ["reseed:3"]}]})
+        # J. re-entrancy: the initialize arrives through a registered method that calls handle_message on the same handler and then
+        #    returns / raises;  M. a consumer rewrites the response object it was given;  K. building the result fails after the
+        #    session was created (first 1-2 times), then the next request
+        for a in reqs:
+            for b in reqs:
+                for then in ("return", "raise"):
+                    out.append({"steps": [{"req": a, "carry": None, "nested": then, "cls": "Unprintable"}, {"req": b, "carry": "prev"},
+                                          {"req": a, "carry": None, "nested": then}]})
+                out.append({"steps": [{"req": a, "carry": None, "mutate": True}, {"req": b, "carry": None, "mutate": True}, {"req": a, "carry": "prev"}]})
+                out.append({"steps": [{"req": a, "carry": None, "mutate": True}, {"req": b, "carry": None}], "read": "late"})
+        for cls in ("ValueError", "KeyError", "Unprintable"):
+            for times in (1, 2):
+                for a in (good[0], bad[0], bad[4]):
+                    out.append({"dump_raises": {"cls": cls, "times": times},
+                                "steps": [{"req": a, "carry": None}, {"req": a, "carry": None}, {"req": good[1], "carry": None}]})
         # F. the session store raises (every exception class, also one without a text) for the first 1-2 initializes, then works
         for cls in V.EXC_CLASSES:
             for times in (1, 2):
@@ -283,8 +333,8 @@ class Server(Suite):
     def impl_batch(self, cases):
         single = [c for c in cases if "steps" not in c]
         seqs = [c for c in cases if "steps" in c]
-        so = iter(V.run_server(single) if single else [])
-        qo = iter(V.run_server_seq(seqs) if seqs else [])
+        so = iter(V.run_split("run_server", single) if single else [])
+        qo = iter(V.run_split("run_server_seq", seqs) if seqs else [])
         obs = [next(qo) if "steps" in c else next(so) for c in cases]
         self._last = {id(c): o for c, o in zip(cases, obs)}
         return obs
@@ -311,7 +361,7 @@ class Server(Suite):
                    "deleted": lambda i: i - 1, "cleared": lambda i: i - 1}
             obs = (getattr(self, "_last", {}).get(id(case)) or {}).get("steps") or []
             pos.update({"int": lambda i: 7, "true": lambda i: 1, "other-handler": lambda i: 997})
-            skip = (case.get("store_raises") or {}).get("times", 0)  # the initializes the faulty store turns into errors: not modelled
+            skip = (case.get("store_raises") or case.get("dump_raises") or {}).get("times", 0)  # initializes turned into errors: not modelled
             return {"m": "version", "op": "serverseq",
                     "steps": [{"req": self.model_req(st["req"]), "carry": pos[st["carry"]](i) if st.get("carry") else None,
                                "choice": self.choice(obs[i]) if i < len(obs) else None, "h": st.get("h", 0)}
@@ -323,10 +373,10 @@ class Server(Suite):
 
     def compare(self, case, o, m):
         if "steps" in case:
-            skip = (case.get("store_raises") or {}).get("times", 0)
+            skip = (case.get("store_raises") or case.get("dump_raises") or {}).get("times", 0)
             for so in o["steps"][:skip]:
-                if so.get("kind") != "error" or so.get("has_session") or so.get("late", {}).get("has_session"):
-                    return "a failing session store did not turn the initialize into an error without a session"
+                if so.get("kind") != "error" or (case.get("store_raises") and (so.get("has_session") or so.get("late", {}).get("has_session"))):
+                    return "a failing session store / result builder did not turn the initialize into an error"
             if len(o["steps"]) - skip != len(m["steps"]):
                 return "step count differs"
             for so, sm in zip(o["steps"][skip:], m["steps"]):
@@ -427,7 +477,10 @@ class Server(Suite):
             extra = "".join(sorted({"/between:" + "+".join(s["between"]) for s in case["steps"] if s.get("between")}
                                    | {"/same-object" for s in case["steps"] if s.get("same_object")}))
             extra += ("/%d-handlers" % case["handlers"] if case.get("handlers") else "") + ("/" + case["hv"] if case.get("hv") else "") \
-                + ("/store-raises:" + case["store_raises"]["cls"] if case.get("store_raises") else "")
+                + ("/store-raises:" + case["store_raises"]["cls"] if case.get("store_raises") else "") \
+                + ("/result-builder-raises" if case.get("dump_raises") else "") + ("/nested" if any(s.get("nested") for s in case["steps"]) else "") \
+                + ("/consumer-rewrites-response" if any(s.get("mutate") for s in case["steps"]) else "") \
+                + ("/" + case["backend"] if case.get("backend") else "")
             mode = "/concurrent" if case.get("concurrent") else ("/answers-read-after-the-sequence" if case.get("read") == "late" else "")
             return "sequence/%s/%s/%s%s%s" % (n if n <= 3 else "long", "+".join(dict.fromkeys(str(s.get("carry")) for s in case["steps"][1:])),
                                               reuse, extra, mode)
@@ -436,6 +489,8 @@ class Server(Suite):
                          "/clientInfo:" + r["ci"] if r.get("ci") else "", "/layout:" + r["layout"] if r.get("layout") else ""])
         if case.get("hv"):
             dress += "/handler:" + case["hv"]
+        if case.get("backend"):
+            dress += "/" + case["backend"]
         if dress:
             return "dressed/" + r["k"] + dress + "/" + str(o.get("kind"))
         if r["k"] == "absent":
@@ -501,10 +556,14 @@ class Handshake(Suite):
         for _ in range(60 if budget == "quick" else 600):
             out.append({"clients": [rng.choice(clients) for _ in range(3)]})
         out = [dict(c) for c in out]
-        return V.assign_debug(out, lambda c: ("multi", len(c["clients"])) if "clients" in c else ("one", c.get("buf"), c["sup"] is None, c["pref"] is None), ctx=ctx, name=self.name)
+        out = V.assign_debug(out, lambda c: ("multi", len(c["clients"])) if "clients" in c else ("one", c.get("buf"), c["sup"] is None, c["pref"] is None), ctx=ctx, name=self.name)
+        # the same with BOTH sides started without Pydantic (MCP_FORCE_FALLBACK=1) in a worker process
+        fb = [dict(c, backend="fallback") for c in out if "clients" in c or c["sup"] is None or len(c["sup"]) <= (1 if budget == "quick" else 2)]
+        ctx.notes.append(f"{self.name}: {len(fb)} of the cases also run in a worker process with MCP_FORCE_FALLBACK=1")
+        return out + fb
 
     def impl_batch(self, cases):
-        obs = V.run_handshake(cases)
+        obs = V.run_split("run_handshake", cases)
         self._last = {id(c): o for c, o in zip(cases, obs)}
         return obs
 
@@ -576,11 +635,12 @@ class Handshake(Suite):
 
     def kind(self, case, o):
         if "clients" in case:
-            return "handshake/%d-clients-one-handler/%s" % (len(case["clients"]), "+".join(sorted(str(c_.get("outcome")) for c_ in o["clients"])))
+            return "handshake/%d-clients-one-handler/%s%s" % (len(case["clients"]), "+".join(sorted(str(c_.get("outcome")) for c_ in o["clients"])),
+                                                             "/" + case["backend"] if case.get("backend") else "")
         ssup = set(V.server_supported())
         csup = case["sup"] if case["sup"] is not None else list(ssup)
         common = "common" if ssup & set(csup) else "disjoint"
-        return f"handshake/{common}/{o.get('outcome')}"
+        return f"handshake/{common}/{o.get('outcome')}" + ("/" + case["backend"] if case.get("backend") else "")
 
     def shrink_candidates(self, case):
         sup = case["sup"]
